@@ -81,6 +81,9 @@ func TestC06Faults(t *testing.T) {
 }
 
 // rawTarget runs the target op directly (outcomes under faults are not the model's).
+// result of the last InsertOrUpdateMany issued by rawTarget
+var lastManyN, lastManyLen int
+
 func rawTarget(e *Env, op *Op) (err error, applicable bool) {
 	switch op.Op {
 	case "insert":
@@ -115,7 +118,8 @@ func rawTarget(e *Env, op *Op) (err error, applicable bool) {
 		if len(args) == 0 {
 			return nil, false
 		}
-		_, err := e.db.InsertOrUpdateMany(args...)
+		n, err := e.db.InsertOrUpdateMany(args...)
+		lastManyN, lastManyLen = n, len(args)
 		return err, true
 	}
 	return nil, false
@@ -194,7 +198,11 @@ func caseC06Faults(t TB, prog *Program) {
 func checkAfterFault(e *Env, before *Model, target *Op, err error, k int, st *Stats) (excluded bool) {
 	where := fmt.Sprintf("storage fault at fs mutation %d of the final %s call (returned %v)", k, target.Op, err)
 	if err == nil {
-		// the failure was swallowed: outside the statement (it speaks about calls that return an error)
+		// the failure was swallowed: outside the statement (it speaks about calls that return an
+		// error) - but a batch that reports success has stored all its members
+		if target.Op == "many" && lastManyN != lastManyLen {
+			e.failf("%s: InsertOrUpdateMany returned a nil error although it stored only %d of its %d members", where, lastManyN, lastManyLen)
+		}
 		return false
 	}
 	st.Add("faulted_calls_returning_error", 1)
@@ -221,6 +229,30 @@ func checkAfterFault(e *Env, before *Model, target *Op, err error, k int, st *St
 			e.failf("%s: on the live handle the state observable through reads and searches differs from before the call and Control reports nothing (silent divergence):\n%s", where, strings.Join(liveDiff, "\n"))
 		}
 		excluded = true
+	}
+	// 1z. whatever a failed single-object call leaves behind, the object is either what it was or
+	// what the call wanted it to be - on every read path of the live handle. (The known finding is
+	// "the new state is kept"; an object that is gone, or holds a third value, is something else.)
+	if target.Op == "update" {
+		if id, ok := e.liveRef(target.Ref); ok {
+			d := cloneDoc(before.objs[id])
+			applySets(d, target.Sets)
+			want, tv := before.Clone().Upsert(d, id)
+			probe := &Doc{}
+			probe.Initialize(id)
+			got, gerr := e.db.Get(probe)
+			oldv := canon(before.objs[id])
+			if gerr != nil {
+				e.failf("%s: the object being updated (%s) can no longer be read on the live handle: %v (it was stored before the call)", where, e.tag(id), gerr)
+			}
+			if c := canon(got); c != oldv && !(want == OK && tv != nil && c == canon(tv)) {
+				e.failf("%s: the object being updated (%s) reads %s on the live handle: neither its value before the call (%s) nor the value the call wanted to store", where, e.tag(id), c, oldv)
+			}
+			if n, cerr := e.db.Count(&Doc{}); cerr == nil && n != len(before.objs) {
+				e.failf("%s: a failed update changed the number of stored objects from %d to %d", where, len(before.objs), n)
+			}
+			st.Add("single_object_old_or_new_checked", 1)
+		}
 	}
 	// 1a. with the read cache on, whatever state the failed call left on the live handle is at
 	// least ONE state: what All returns for an object is what Get returns, and a search for the
